@@ -65,12 +65,22 @@ PBool  == H.ty = "B" /\ \E g \in {"true", "false"} : Fill(g, Node(g, 0, "B"), <<
 PCmp   == H.ty = "B" /\ \E g \in {"lt", "eq"} : Fill(g, Node(g, 0, "B"), <<Hole("I", H.sc), Hole("I", H.sc)>>)
 PLogic == H.ty = "B" /\ \E g \in {"and", "or"} : Fill(g, Node(g, 0, "B"), <<Hole("B", H.sc), Hole("B", H.sc)>>)
 PMkR   == H.ty = "R" /\ Fill("mkr", Node("mkr", 0, "R"), <<Hole("I", H.sc), Hole("I", H.sc)>>)
+\* the same record written { y = e1, x = e2 }: the fields are evaluated in the order they are written, the value is
+\* the same record; programs with both spellings have two field-name lists for one record type
+\* Its type is { y : Int, x : Int }, which gluon keeps apart from { x : Int, y : Int } (the layout follows the written
+\* order), so it is generated only where it is consumed on the spot (hole type "RS"): projected directly, by name,
+\* matched by a record pattern, or bound under the annotation { x : Int, y : Int } and then projected (prxa / prya).
+PMkRS  == H.ty = "RS" /\ Fill("mkrs", Node("mkrs", 0, "RS"), <<Hole("I", H.sc), Hole("I", H.sc)>>)
+PProjA == H.ty = "I" /\ \E g \in {"prxa", "prya"} : Fill(g, Node(g, 0, "I"), <<Hole("RS", H.sc)>>)
+\* projection by name through a row-polymorphic function, ((\r -> r.x) e): the field is looked up by its name at run
+\* time instead of at the offset the type gives
+PProjN == H.ty = "I" /\ \E g \in {"prxn", "pryn"}, rt \in {"R", "RS"} : Fill(g, Node(g, 0, "I"), <<Hole(rt, H.sc)>>)
 PUpd   == H.ty = "R" /\ Fill("upd", Node("upd", 0, "R"), <<Hole("I", H.sc), Hole("R", H.sc)>>)
-PProj  == H.ty = "I" /\ \E g \in {"prx", "pry"} : Fill(g, Node(g, 0, "I"), <<Hole("R", H.sc)>>)
+PProj  == H.ty = "I" /\ \E g \in {"prx", "pry"}, rt \in {"R", "RS"} : Fill(g, Node(g, 0, "I"), <<Hole(rt, H.sc)>>)
 PMkP   == H.ty = "P" /\ Fill("mkp", Node("mkp", 0, "P"), <<Hole("I", H.sc), Hole("I", H.sc)>>)
 PMTup  == H.ty = "I" /\ Room(2) /\ Fill("mtup", Node("mtup", Len(H.sc) + 1, "I"), <<Hole("P", H.sc), Hole("I", Ext(H.sc, <<"I", "I">>))>>)
 \* match r with | { x = v1, y = v2 } -> e     (a record pattern whose fields are bound under other names)
-PMRec  == H.ty = "I" /\ Room(2) /\ Fill("mrec", Node("mrec", Len(H.sc) + 1, "I"), <<Hole("R", H.sc), Hole("I", Ext(H.sc, <<"I", "I">>))>>)
+PMRec  == H.ty = "I" /\ Room(2) /\ \E rt \in {"R", "RS"} : Fill("mrec", Node("mrec", Len(H.sc) + 1, "I"), <<Hole(rt, H.sc), Hole("I", Ext(H.sc, <<"I", "I">>))>>)
 POpt   == H.ty = "O" /\ (Fill("none", Node("none", 0, "O"), <<>>) \/ Fill("some", Node("some", 0, "O"), <<Hole("I", H.sc)>>))
 PMOpt  == H.ty = "I" /\ Room(1) /\ Fill("mopt", Node("mopt", 0, "I"), <<Hole("O", H.sc), Hole("I", Ext(H.sc, <<"I">>)), Hole("I", H.sc)>>)
 PMPart == H.ty = "I" /\ Room(1) /\ Fill("mpart", Node("mpart", 0, "I"), <<Hole("O", H.sc), Hole("I", Ext(H.sc, <<"I">>))>>)
@@ -102,7 +112,7 @@ PRetype ==
 
 Next == pending # <<>> /\
   (PVar \/ PLit \/ PBig \/ PArith \/ PIf \/ PLet \/ PLetU \/ PApp1 \/ PApp2 \/ PPapp \/ PLam1 \/ PLam2 \/ PLam11 \/ PEff \/ PErr
-   \/ PBool \/ PCmp \/ PLogic \/ PMkR \/ PUpd \/ PProj \/ PMkP \/ PMTup \/ PMRec \/ POpt \/ PMOpt \/ PMPart \/ PMLit \/ PList \/ PMList
+   \/ PBool \/ PCmp \/ PLogic \/ PMkR \/ PMkRS \/ PUpd \/ PProj \/ PProjN \/ PProjA \/ PMkP \/ PMTup \/ PMRec \/ POpt \/ PMOpt \/ PMPart \/ PMLit \/ PList \/ PMList
    \/ PArr \/ PIdx \/ PRecF \/ PMListD \/ PMOpt3 \/ PRetype)
 
 Spec == Init /\ [][Next]_vars
@@ -138,12 +148,18 @@ Same(x, y) == x.k = y.k /\ x.d = y.d
 (* Evaluation of a complete prefix-coded program p *)
 Arity(g) ==
   CASE g \in {"var", "lit", "big", "err", "true", "false", "none", "nil", "arr0"} -> 0
-    [] g \in {"lam1", "lam2", "lam11", "eff", "effm", "prx", "pry", "some"} -> 1
-    [] g \in {"add", "sub", "mul", "div", "let", "letu", "app1", "papp", "lt", "eq", "and", "or", "mkr", "upd", "mkp", "mtup", "mrec",
+    [] g \in {"lam1", "lam2", "lam11", "eff", "effm", "prx", "pry", "prxn", "pryn", "prxa", "prya", "some"} -> 1
+    [] g \in {"add", "sub", "mul", "div", "let", "letu", "app1", "papp", "lt", "eq", "and", "or", "mkr", "mkrs", "upd", "mkp", "mtup", "mrec",
               "mpart", "cons", "arr2", "idx"} -> 2
     [] g \in {"if", "app2", "mopt", "recf"} -> 3
     [] g \in {"mlit", "mlist", "mlistd", "mopt3"} -> 4
 
+IsMk(g) == g \in {"mkr", "mkrs"}
+IsPrx(g) == g \in {"prx", "prxn", "prxa"}
+IsPry(g) == g \in {"pry", "pryn", "prya"}
+\* root of the subtree which computes field x (y) of the record literal at position c
+XChild(p, E, c) == IF p[c].g = "mkr" THEN c + 1 ELSE E[c + 1]
+YChild(p, E, c) == IF p[c].g = "mkr" THEN E[c + 1] ELSE c + 1
 Val(v, log) == [k |-> "val", v |-> v, log |-> log]
 Err(c, log) == [k |-> "err", v |-> c, log |-> log]
 Unrep(log)  == [k |-> "unrep", v |-> 0, log |-> log]
@@ -217,13 +233,14 @@ Ev(P, i, env, log, fuel) ==
          LET a == Ev(P, c1, env, log, fuel) IN
          IF a.k # "val" THEN a ELSE IF a.v.b THEN Val(BV(TRUE), a.log) ELSE Ev(P, c2, env, a.log, fuel)
     [] g = "mkr" -> LET f(x, y, l) == Val([t |-> "rec", f |-> <<x, y>>], l) IN Bin(f)
+    [] g = "mkrs" -> LET f(y, x, l) == Val([t |-> "rec", f |-> <<x, y>>], l) IN Bin(f)
     [] g = "mkp" -> LET f(x, y, l) == Val([t |-> "tup", f |-> <<x, y>>], l) IN Bin(f)
     [] g = "upd" -> LET f(x, r, l) == Val([t |-> "rec", f |-> <<x, r.f[2]>>], l) IN Bin(f)     \* { x = e, .. base }
-    [] g = "prx" ->
-         IF p[c1].g = "mkr" /\ E[c1 + 1] \in P.skip THEN Ev(P, c1 + 1, env, log, fuel)       \* the other field is dead
+    [] IsPrx(g) ->
+         IF IsMk(p[c1].g) /\ YChild(p, E, c1) \in P.skip THEN Ev(P, XChild(p, E, c1), env, log, fuel)       \* the other field is dead
          ELSE LET a == Ev(P, c1, env, log, fuel) IN IF a.k # "val" THEN a ELSE Val(a.v.f[1], a.log)
-    [] g = "pry" ->
-         IF p[c1].g = "mkr" /\ (c1 + 1) \in P.skip THEN Ev(P, E[c1 + 1], env, log, fuel)
+    [] IsPry(g) ->
+         IF IsMk(p[c1].g) /\ XChild(p, E, c1) \in P.skip THEN Ev(P, YChild(p, E, c1), env, log, fuel)
          ELSE LET a == Ev(P, c1, env, log, fuel) IN IF a.k # "val" THEN a ELSE Val(a.v.f[2], a.log)
     [] g = "mtup" ->
          IF p[c1].g = "mkp" /\ ((c1 + 1) \in P.skip \/ E[c1 + 1] \in P.skip)
@@ -235,11 +252,13 @@ Ev(P, i, env, log, fuel) ==
            ELSE LET a == Ev(P, c1, env, log, fuel) IN
                 IF a.k # "val" THEN a ELSE Ev(P, c2, env \o a.v.f, a.log, fuel)
     [] g = "mrec" ->
-         IF p[c1].g = "mkr" /\ ((c1 + 1) \in P.skip \/ E[c1 + 1] \in P.skip)
-           THEN LET x == IF (c1 + 1) \in P.skip THEN Val(IV(0, 0), log) ELSE Ev(P, c1 + 1, env, log, fuel) IN
+         IF IsMk(p[c1].g) /\ ((c1 + 1) \in P.skip \/ E[c1 + 1] \in P.skip)
+           THEN \* the fields are computed in the order they are written; dead ones are not computed
+                LET x == IF (c1 + 1) \in P.skip THEN Val(IV(0, 0), log) ELSE Ev(P, c1 + 1, env, log, fuel) IN
                 IF x.k # "val" THEN x
                 ELSE LET y == IF E[c1 + 1] \in P.skip THEN Val(IV(0, 0), x.log) ELSE Ev(P, E[c1 + 1], env, x.log, fuel) IN
-                     IF y.k # "val" THEN y ELSE Ev(P, c2, env \o <<x.v, y.v>>, y.log, fuel)
+                     IF y.k # "val" THEN y
+                     ELSE Ev(P, c2, env \o (IF p[c1].g = "mkr" THEN <<x.v, y.v>> ELSE <<y.v, x.v>>), y.log, fuel)
            ELSE LET a == Ev(P, c1, env, log, fuel) IN
                 IF a.k # "val" THEN a ELSE Ev(P, c2, env \o a.v.f, a.log, fuel)
     [] g = "none" -> Val([t |-> "none"], log)
@@ -333,12 +352,12 @@ UsedOutside(p, E, from, to, idx, D) ==
 DeadStep(p, E, D) ==
   {i + 1 : i \in {x \in 1..Len(p) : \/ p[x].g = "letu"
                                      \/ (p[x].g = "let" /\ ~UsedOutside(p, E, E[x + 1], E[x], p[x].a, D))}}
-  \cup {E[i + 2] : i \in {x \in 1..Len(p) : p[x].g = "prx" /\ p[x + 1].g = "mkr"}}
-  \cup {i + 2 : i \in {x \in 1..Len(p) : p[x].g = "pry" /\ p[x + 1].g = "mkr"}}
+  \cup {YChild(p, E, i + 1) : i \in {x \in 1..Len(p) : IsPrx(p[x].g) /\ IsMk(p[x + 1].g)}}
+  \cup {XChild(p, E, i + 1) : i \in {x \in 1..Len(p) : IsPry(p[x].g) /\ IsMk(p[x + 1].g)}}
   \cup {i + 2 : i \in {x \in 1..Len(p) : p[x].g = "mtup" /\ p[x + 1].g = "mkp" /\ ~UsedOutside(p, E, E[x + 1], E[x], p[x].a, D)}}
   \cup {E[i + 2] : i \in {x \in 1..Len(p) : p[x].g = "mtup" /\ p[x + 1].g = "mkp" /\ ~UsedOutside(p, E, E[x + 1], E[x], p[x].a + 1, D)}}
-  \cup {i + 2 : i \in {x \in 1..Len(p) : p[x].g = "mrec" /\ p[x + 1].g = "mkr" /\ ~UsedOutside(p, E, E[x + 1], E[x], p[x].a, D)}}
-  \cup {E[i + 2] : i \in {x \in 1..Len(p) : p[x].g = "mrec" /\ p[x + 1].g = "mkr" /\ ~UsedOutside(p, E, E[x + 1], E[x], p[x].a + 1, D)}}
+  \cup {XChild(p, E, i + 1) : i \in {x \in 1..Len(p) : p[x].g = "mrec" /\ IsMk(p[x + 1].g) /\ ~UsedOutside(p, E, E[x + 1], E[x], p[x].a, D)}}
+  \cup {YChild(p, E, i + 1) : i \in {x \in 1..Len(p) : p[x].g = "mrec" /\ IsMk(p[x + 1].g) /\ ~UsedOutside(p, E, E[x + 1], E[x], p[x].a + 1, D)}}
 \* transitively dead (a variable used only by dead bindings is dead): three rounds suffice for the generated sizes
 DeadLets(p, E) == DeadStep(p, E, DeadStep(p, E, DeadStep(p, E, {})))
 \* a set of dead roots may be dropped together only if what it drops is dead once it is dropped
